@@ -104,6 +104,7 @@ func (h *H) drawCase(rt *rapid.T, prop string, excl map[string]int) *core.Case {
 	case "C15":
 		p.InPlaceOnly = true
 		p.Evolve = true
+		p.UniqueAliases = h.Open["F-K"]
 		p.AliasPct = 40
 		p.MinDeps = 1
 	case "C17", "C18":
